@@ -80,3 +80,84 @@ M("c02-conditional-raw", ["C02"], [(GRP, "        pre1 = __class__._to_pregex(pr
 M("c02-benign-extra-group", "C02", [(PRE, 'pattern = f"{pre}{self._concat_conditional_group()}{pre}"', 'pattern = f"{pre}(?:{self._concat_conditional_group()}){pre}"')], expect="silent")
 M("c02-benign-plus-instead-of-fstring", "C02", [(PRE, 'pattern = f"{pre}{self._concat_conditional_group()}{pre}"', 'pattern = pre + self._concat_conditional_group() + pre')], expect="silent")
 M("c02-benign-table-more-grouping", "C02", [(PRE, "_Type.Other: (False, True, False)", "_Type.Other: (True, True, True)")], expect="silent")
+
+# ---------------------------------------------------------------- C05
+M("c05-concat-empty-shortcut-removed", "C05", [(PRE, """        if pre._get_type() == _Type.Empty:
+            return self
+
+        pattern = self._concat_conditional_group()""", """        pattern = self._concat_conditional_group()""")], expect="silent")  # '' + x is still x: benign
+M("c05-either-empty-kept", "C05", [(PRE, """        if pre._get_type() == _Type.Empty:
+            pattern = str(self)
+        else:
+            pattern = f"{self}|{pre}" if on_right else f"{pre}|{self}\"""", """        pattern = f"{self}|{pre}" if on_right else f"{pre}|{self}\"""")], rule="R-EMPTY")
+M("c05-optional-empty-quantified", "C05", [(PRE, """        if self._get_type() == _Type.Empty:
+            return self
+        return __class__(
+            f"{self._quantify_conditional_group()}?""", """        return __class__(
+            f"{self._quantify_conditional_group()}?""")])
+M("c05-capture-empty-wrapped", "C05", [(PRE, """        if self.__type == _Type.Empty:
+            return self
+        elif self.__type == _Type.Group:
+            if self.__pattern.startswith('(?:'):""", """        if self.__type == _Type.Group:
+            if self.__pattern.startswith('(?:'):""")], rule="R-EMPTY")
+M("c05-followedby-empty-emits", "C05", [(PRE, """        if pre._get_type() == _Type.Empty:
+            return self
+        return __class__(
+            f"{self._assert_conditional_group()}(?={pre})",""", """        return __class__(
+            f"{self._assert_conditional_group()}(?={pre})",""")], rule="R-EMPTY")
+M("c05-notfollowedby-no-raise", "C05", [(PRE, """        if pre._get_type() == _Type.Empty:
+            raise _ex.EmptyNegativeAssertionException()
+        pattern = f"{self._assert_conditional_group()}(?!{pre})\"""", """        if pre._get_type() == _Type.Empty:
+            return self
+        pattern = f"{self._assert_conditional_group()}(?!{pre})\"""")], rule="R-EMPTY")
+M("c05-operator-zero-operands", "C05", [(OPS, "            result = ''\n", "            result = '(?:)'\n")], rule="R-EMPTY")
+M("c05-atleast-empty-after-guard", "C05", [(PRE, """            if self._get_type() == _Type.Empty:
+                return self
+            if not self._is_repeatable():
+                raise _ex.CannotBeRepeatedException(self)
+            return __class__(
+                f"{self._quantify_conditional_group()}{{{n},}}""", """            if not self._is_repeatable():
+                raise _ex.CannotBeRepeatedException(self)
+            return __class__(
+                f"{self._quantify_conditional_group()}{{{n},}}""")])
+M("c05-benign-return-new-empty", "C05", [(PRE, """        if self._get_type() == _Type.Empty:
+            return self
+        if not self._is_repeatable():
+            raise _ex.CannotBeRepeatedException(self)
+        return __class__(
+            f"{self._quantify_conditional_group()}*""", """        if self._get_type() == _Type.Empty:
+            return Pregex()
+        if not self._is_repeatable():
+            raise _ex.CannotBeRepeatedException(self)
+        return __class__(
+            f"{self._quantify_conditional_group()}*""")], expect="silent")
+
+# ---------------------------------------------------------------- C09
+M("c09-indefinite-no-repeat-test", ["C09", "C04"], [(PRE, """        if not self._is_repeatable():
+            raise _ex.CannotBeRepeatedException(self)
+        return __class__(
+            f"{self._quantify_conditional_group()}*""", """        return __class__(
+            f"{self._quantify_conditional_group()}*""")])
+M("c09-atmost-checks-for-one", ["C09"], [(PRE, """        elif n == 1:
+            return self.optional(is_greedy)
+        else:""", """        elif n == 1 and self._is_repeatable():
+            return self.optional(is_greedy)
+        else:""")], rule="R-REPEAT")
+M("c09-infer-anchor-repeatable", "C09", [(PRE, """            pattern, flags=__class__.__flags) is not None:
+            return _Type.Assertion, False""", """            pattern, flags=__class__.__flags) is not None:
+            return _Type.Assertion, True""")], rule="R-FLAGSRC")
+M("c09-infer-other-nonrepeatable", "C09", [(PRE, "        return _Type.Other, True", "        return _Type.Other, False")], rule="R-FLAGSRC")
+M("c09-recogniser-drops-Z", "C09", [(PRE, r"""(?:\^|\\A|\(\?<=.+\)).+|.+(?:\$|\\Z|\(\?=.+\))""", r"""(?:\^|\\A|\(\?<=.+\)).+|.+(?:\$|\(\?=.+\))""")], rule="R-RECOG")
+M("c09-emitter-drifts", "C09", [(PRE, '''return __class__(f"\\\\A{self._assert_conditional_group()}", escape=False)''', '''return __class__(f"(?:\\\\A){self._assert_conditional_group()}", escape=False)''')], rule="R-RECOG")
+M("c09-flag-written-elsewhere", "C09", [(PRE, """    def _is_repeatable(self) -> bool:""", """    def _set_repeatable(self) -> None:
+        self.__repeatable = True
+
+
+    def _is_repeatable(self) -> bool:""")], rule="R-FLAGSRC")
+M("c09-benign-optional-nonrep", "C09", [(PRE, """        if self._get_type() == _Type.Empty:
+            return self
+        return __class__(
+            f"{self._quantify_conditional_group()}?""", """        if self._get_type() == _Type.Empty or self.__pattern == '':
+            return self
+        return __class__(
+            f"{self._quantify_conditional_group()}?""")], expect="silent")
